@@ -74,6 +74,62 @@ class Run:
             )
         return res
 
+    # ------------------------------------------------------------------ unbounded companions (TLAPS, Apalache)
+    def tlaps(self, name, timeout=600):
+        """Check spec/proofs/<name>.tla with the TLA+ proof system in a scratch copy."""
+        import re
+        import shutil
+        import subprocess
+        import tempfile
+
+        if os.environ.get("VERIF_SKIP_MC") == "1":
+            return
+        d = tempfile.mkdtemp(prefix="rtv_tlaps_")
+        try:
+            shutil.copy(os.path.join(SPEC, "proofs", name + ".tla"), d)
+            try:
+                p = subprocess.run(["tlapm", "--cleanfp", name + ".tla"], cwd=d, capture_output=True, text=True, timeout=timeout)
+                out = p.stdout + p.stderr
+            except subprocess.TimeoutExpired:
+                out = "timeout"
+            m = re.search(r"All (\d+) obligations? proved", out)
+            info = {"proof": name, "obligations_proved": int(m.group(1)) if m else 0, "all_proved": bool(m)}
+            self.extra.setdefault("tlaps", []).append(info)
+            if not m:
+                self.machinery_errors.append(f"TLAPS did not prove {name}: {out[-600:]}")
+        finally:
+            shutil.rmtree(d, ignore_errors=True)
+
+    def apalache(self, name, init, inv, cinit=None, length=1, timeout=600):
+        """Bounded symbolic check of spec/apalache/<name>.tla (used for inductive invariants)."""
+        import shutil
+        import subprocess
+        import tempfile
+
+        if os.environ.get("VERIF_SKIP_MC") == "1":
+            return
+        d = tempfile.mkdtemp(prefix="rtv_apa_")
+        try:
+            shutil.copy(os.path.join(SPEC, "apalache", name + ".tla"), d)
+            cmd = ["apalache-mc", "check", f"--init={init}", f"--inv={inv}", f"--length={length}", f"--out-dir={d}/out"]
+            if cinit:
+                cmd.append(f"--cinit={cinit}")
+            cmd.append(name + ".tla")
+            try:
+                p = subprocess.run(cmd, cwd=d, capture_output=True, text=True, timeout=timeout)
+                out = p.stdout + p.stderr
+            except subprocess.TimeoutExpired:
+                out = "timeout"
+            ok = "The outcome is: NoError" in out
+            self.extra.setdefault("apalache", []).append({"module": name, "init": init, "inv": inv, "length": length, "no_error": ok})
+            if "The outcome is: Error" in out:
+                self.violations.append({"clause": f"{self.pid}.model.apalache.{inv}", "what": f"Apalache found a counterexample to {inv} in {name}",
+                                        "item": {"model": name, "tail": out[-1500:]}, "sig": f"apalache:{name}:{inv}"})
+            elif not ok:
+                self.notes.append(f"Apalache did not finish on {name}/{inv} (dropped, not a verdict): {out[-200:]!r}")
+        finally:
+            shutil.rmtree(d, ignore_errors=True)
+
     # ------------------------------------------------------------------ conformance
     def validate(self, trace_module, payload, items, sig_fn=None, workers=1, timeout=3600, heap="6g"):
         """Have TLC judge a batch of implementation observations.
